@@ -132,3 +132,20 @@ PROPS["C20"] = {
     "level_text": "Bounded symbolic model checking of data/value.go: value kind pairs are enumerated, payloads (int64, float64 bit patterns, bytes, booleans) are solver variables, so laws that fail only for rare payloads (NaN) are decided rather than sampled. Only the value-law half of the property is claimed.",
     "level_note": "Conversion (data/convert.go) is outside the technique's reach and is not claimed. Trusted: go/ssa, gosym, z3 floating-point theory.",
 }
+
+# ---------------------------------------------------------------- C01
+PROPS["C01"] = {
+    "jobs": [
+        Job("soyhtml", "H_binop", "0..13,0..8,0..8", workers=16),
+        Job("soyhtml", "H_shortcircuit", "0..4,0..8", workers=8),
+        Job("soyhtml", "H_unop", "0..1,0..8", workers=4),
+        Job("soyhtml", "H_ternary", "0..8,0..8", workers=8),
+        Job("soyhtml", "H_print", "0..8", workers=8),
+        Job("soyhtml", "H_dataref", "0..5,0..8", workers=8),
+    ],
+    "bounds": "evaluator: every binary operator x every pair of 9 operand kinds (undefined, null, bool, int |i|<=2^31, any float64 bit pattern, 1-byte string, empty string, list, map) with symbolic payloads; unary ops; ternary; short-circuit forms with an erroring skipped operand; data references ([int], ?[int], .key, ?.key, [string], ?[string]) on every kind with index in [-2,3]; printed text for bool/null/string/list/map and ints in [-11,11]",
+    "outside": "text of printed floats and of ints beyond [-11,11] (strconv); strings longer than 1 byte as operands; integer overflow (the reference assumes |i| <= 2^31); round() with a precision (math.Pow); randomInt beyond range membership; float arithmetic is checked as 'which IEEE operation on which operands', not re-verified",
+    "assumptions": ["refBin/refTruthy/refEquals (harness) transcribe the Soy expression semantics; list/map identity uses one instance per kind"],
+    "level_text": "Bounded symbolic model checking of the tree-walking evaluator, lexer and expression parser: operand kinds and program shapes are enumerated, every payload (int64, float64 bits, bytes, bools) is a solver variable; the reference semantics is an independent transcription of the language definition executed by the same engine.",
+    "level_note": "Bounds in evidence. Trusted: go/ssa, gosym (native replay), z3 incl. FP theory, the reference semantics in the harness.",
+}
